@@ -355,7 +355,7 @@ func realStreams(seed uint64, n int) []Stream {
 }
 
 func runC07(c *ev.Ctx) {
-	c.Rule = "each case = one run of FactoryDetect/PowerOnDetect/PeriodDetect on a generated stream. Stub runs: registry runners replaced by recording stubs that decode (Pass,Q) per item from the sample, so the stream encodes a chosen s x items result matrix (every pass count for every item, uniformity sum-of-squares just inside/outside P_T=1e-4, mixed, random; tails that would encode failures); real runs: recording wrappers around the real tests on PRNG/LFSR/biased streams. Oracle: independent decision rule (exact integer threshold, exact Q(9/2,.)) + sample-history checker (j-th judged sample == j-th stream chunk, each chunk once, expected items once in registry order). non-trivial = scenario whose matrix is within 2 of the pass threshold or at the uniformity boundary, or any real-runner run; distinct = distinct scenario descriptor"
+	c.Rule = "each case = one run of FactoryDetect/PowerOnDetect/PeriodDetect on a generated stream. Stub runs: registry runners replaced by recording stubs that decode (Pass,Q) per item from the sample, so the stream encodes a chosen s x items result matrix (every pass count for every item, uniformity sum-of-squares just inside/outside P_T=1e-4 with Q values inside bins, on the edges and on their float64 neighbours, mixed, random; tails that would encode failures); history chains (a failing / faulting / Fast run first, then an accepted or at-threshold stream in the same process; execution order shuffled); sources that are devices or pipes; real runs: recording wrappers around the real tests on PRNG/LFSR/biased streams. Oracle: independent decision rule (exact integer threshold, exact Q(9/2,.)) + sample-history checker (j-th judged sample == j-th stream chunk, each chunk once, expected items once in registry order). non-trivial = scenario whose matrix is within 2 of the pass threshold or at the uniformity boundary, or any real-runner run; distinct = distinct scenario descriptor"
 	c.Assumptions = []string{"randomness.TestMethodArr is the registry Round15/Round12 iterate (if it is bypassed the stub sweep reports inconclusive and only real-runner runs decide)", "reference decision rule in internal/oracle"}
 	seed := uint64(c.Seed)
 	scns := c07Scenarios(seed, c.Thorough(), seqWFs)
@@ -575,7 +575,7 @@ type c08Group struct {
 }
 
 func runC08(c *ev.Ctx) {
-	c.Rule = "each case = one run of a Fast workflow on a stream for which the sequential variant was also run: verdict and named failing item must match, every judged sample must be exactly one stream chunk judged once by exactly the expected items (12 for periodic), under perturbation (seeded Gosched/sleep delays inside Read and inside runners, GOMAXPROCS 1/2/4/16, 1/2/3/16 workers via taskset); the same scenarios run in a -race build and DATA RACE reports are counted. Streams are verdict-sensitive (all pass counts exactly at the threshold, uniformity at its boundary, only items 13-15 failing) plus real-runner PRNG/LFSR/biased streams. non-trivial = every Fast run (each is a separately scheduled execution); distinct = distinct (scenario descriptor, schedule signature observed)"
+	c.Rule = "each case = one run of a Fast workflow on a stream for which the sequential variant was also run: verdict and named failing item must match, every judged sample must be exactly one stream chunk judged once by exactly the expected items (12 for periodic), under perturbation (seeded Gosched/sleep delays inside Read and inside runners, GOMAXPROCS 1/2/4/16, 1/2/3/16 workers via taskset); the same scenarios run in a -race build and DATA RACE reports are counted. Streams are verdict-sensitive (all pass counts exactly at the threshold, uniformity at its boundary, only items 13-15 failing) plus real-runner PRNG/LFSR/biased streams; further source behaviours: 1..150 consecutive empty reads, one 10 s stall of 1300 empty reads, 60-120 ms per read, seekable reader types at non-zero positions, a failing run of another Fast workflow first in the same process. non-trivial = every Fast run (each is a separately scheduled execution); distinct = distinct (scenario descriptor, schedule signature observed)"
 	c.Assumptions = []string{"the Go race detector reports only races that occur in an observed execution", "the harness reader serialises Read calls (the property's precondition)"}
 	seed := uint64(c.Seed)
 	var scns []Scn
@@ -913,7 +913,7 @@ func runC08(c *ev.Ctx) {
 var allWFs = []string{"Factory", "PowerOn", "Period", "FactoryFast", "PowerOnFast", "PeriodFast"}
 
 func runC09(c *ev.Ctx) {
-	c.Rule = "each case = one workflow run against a source that fails at a chosen byte offset with a chosen failure kind (io.EOF, io.ErrUnexpectedEOF, custom error, error returned together with a partial read; sticky, and transient for the (0,err) kinds). Offsets: 0, 1, B-1, B, B+1, sample boundaries jB and jB+-1, last sample start/middle/end-1, seeded offsets. Verdict per case: returned (Go runtime deadlock detector / parked-goroutine dump decide hangs; watchdog alone is inconclusive), verdict false, error non-nil, no goroutine of the module left blocked (census), bounded number of events after the fault. non-trivial = the fault actually fired before the workflow returned; distinct = distinct (workflow, offset, kind, sticky, perturbation)"
+	c.Rule = "each case = one workflow run against a source that fails at a chosen byte offset with a chosen failure kind (io.EOF, io.ErrUnexpectedEOF, custom error, temporary-class error with Temporary()/Timeout() true, syscall.EAGAIN, error returned together with a partial read; sticky and transient - a transient error-with-data only mid-sample, where io.ReadFull must report it). Offsets: 0, 1, B-1, B, B+1, sample boundaries jB and jB+-1, last sample start/middle/end-1, round absolute positions (multiples of 4096, 65536, 2^20, 10^6), seeded offsets; whole and short reads; single-shot requests from 16 to 8*10^6+ bytes failing at multiples of 10^6, 2^20, 4*10^6, 2^22. Every judged sample must still be a chunk of the stream. Verdict per case: returned (Go runtime deadlock detector / parked-goroutine dump decide hangs; watchdog alone is inconclusive), verdict false, error non-nil, no goroutine of the module left blocked (census), bounded number of events after the fault. non-trivial = the fault actually fired before the workflow returned; distinct = distinct (workflow, offset, kind, sticky, perturbation)"
 	c.Assumptions = []string{"Go runtime deadlock detector (plain child binary, no timers alive)", "stub runners (registry seam) keep a full Factory run at milliseconds so fault points can be enumerated densely; a separate pass uses real runners for Period"}
 	seed := uint64(c.Seed)
 	var scns []Scn
@@ -1165,7 +1165,7 @@ func runC09(c *ev.Ctx) {
 // ---------- C10 ----------
 
 func runC10(c *ev.Ctx) {
-	c.Rule = "each case = one workflow run on a stream delivered under a read-size plan (whole buffers, 1-byte reads, prime 997, prime 7919, seeded random sizes, source chunks straddling sample boundaries by 1/7/B-1 bytes). Oracles: sample-history checker (every judged sample is exactly one stream chunk of consecutive fresh bytes, each chunk judged once) and verdict/failing-item equality across the plans of one stream; SingleDetect: exactly numByte bytes consumed and equal verdicts. Fast variants additionally run under delay plans. non-trivial = a plan that actually produced short reads (reads > samples); distinct = distinct (workflow, stream, plan, perturbation)"
+	c.Rule = "each case = one workflow run on a stream delivered under a read-size plan (whole buffers, 1-byte reads, prime 997, prime 7919, seeded random sizes, source chunks straddling sample boundaries by 1/7/B-1 bytes, final read returning data together with io.EOF) or through another concrete reader type (bytes.Reader, os.File, bufio.Reader, io.LimitedReader) starting at a non-zero position; single-shot requests up to 2^25+12345 bytes (2^26 thorough). Oracles: sample-history checker (every judged sample is exactly one stream chunk of consecutive fresh bytes, each chunk judged once) and verdict/failing-item equality across the plans of one stream; SingleDetect: exactly numByte bytes consumed and equal verdicts. Fast variants additionally run under delay plans. non-trivial = a plan that actually produced short reads (reads > samples); distinct = distinct (workflow, stream, plan, perturbation)"
 	c.Assumptions = []string{"the harness reader serialises Read calls", "stub runners decode the result matrix from the sample, so a single stale byte in the coded region or tag changes what is judged; the full-sample hash catches stale bytes anywhere"}
 	seed := uint64(c.Seed)
 	var scns []Scn
@@ -1450,7 +1450,7 @@ func periodStreams(seed uint64, n int) []Stream {
 }
 
 func runC14(c *ev.Ctx) {
-	c.Rule = "each case = one end-to-end workflow run with the REAL tests (recording wrappers only) on a stuck-at stream (every constant byte 0..255) or a short-cycle stream (period 2..64 bytes: seeded content plus adversarial families: one set bit per period, few distinct bytes, byte permutations); required outcome: returns, verdict false, error non-nil; SingleDetect on all-0x00 / all-0xFF at every length 16..4096 (and seeded larger) must return false. Each scenario runs in a child process so a panic in a worker goroutine is attributed. non-trivial = every stream (each is a distinct degenerate source); distinct = distinct (workflow, stream)"
+	c.Rule = "each case = one end-to-end workflow run with the REAL tests (recording wrappers only) on a stuck-at stream (every constant byte 0..255) or a short-cycle stream (period 2..64 bytes: seeded content plus adversarial families: one set bit per period, few distinct bytes, byte permutations); required outcome: returns, verdict false, error non-nil; SingleDetect on all-0x00 / all-0xFF at every length 16..4096, selected larger ones and 2*10^8 / 2^28 bytes must return false; the degenerate stream also behind an accepted prefix of seekable readers; the small scenarios once more with a 32-bit build of the harness. Each scenario runs in a child process so a panic in a worker goroutine is attributed. non-trivial = every stream (each is a distinct degenerate source); distinct = distinct (workflow, stream)"
 	c.Assumptions = []string{"none beyond the Go runtime: verdicts are read off the real workflows"}
 	seed := uint64(c.Seed)
 	var scns []Scn
